@@ -59,7 +59,7 @@ def gen_base(rng, tier, index):
         # after such a poll has expired; delays are injected at the statements of the replace thread only
         t = 1.05 if tier == "quick" else rng.choice([1.05, 1.02, 2.05])
         return {"pool": "factory", "workers": 1 + index % 2, "quota": 1, "wq": 1.0, "rq": None, "limit_factor": 2,
-                "sweep_only": ["FactoryFunctorPool.ReplaceWorkerThread.run"],
+                "sweep_only": ["FactoryFunctorPool.ReplaceWorkerThread.run"], "budget_s": 280,     # every run takes 3 s: the whole sweep
                 "calls": [{"ordered": True, "n": 3, "chunk": 1, "form": "list", "durations": {"mode": "all", "t": t}}]}
     if index % 8 == 5:
         # many short calls, each with fewer chunks than the quota, together far more than workers*quota: retirements are
@@ -68,8 +68,11 @@ def gen_base(rng, tier, index):
         w = rng.choice([1, 2])
         calls = [{"ordered": ci % 2 == 0, "n": (q - 1) * ch, "chunk": ch, "form": rng.choice(["list", "list", "tuple", "gen"]),
                   "salt": ci} for ci, ch in enumerate(rng.choice([1, 2]) for _ in range(rng.randint(6, 9)))]
+        if index % 16 == 13:
+            w = 1
         return {"pool": "factory", "workers": w, "quota": q, "wq": rng.choice([None, 1, 1.0]), "rq": rng.choice([None, 1, 2]),
-                "calls": calls}
+                # every second one with a chunk limit that is no whole number (max_chunks_per_worker=2.5): replaced all the same
+                "frac_quota": [0.5, 0.25][(index // 16) % 2] if index % 16 == 13 else None, "calls": calls}
     factory = index % 4 != 3
     workers = rng.choice([1, 2, 2, 3])
     quota = rng.choice([1, 1, 2, 3, 5]) if factory and index % 8 != 6 else None
@@ -109,10 +112,13 @@ def gen_base(rng, tier, index):
         case["end_delay"] = rng.choice([0.3, 0.6])
     if factory and quota and index % 8 in (0, 4):
         case["worker_opts"] = {"end_raises": True}         # the workers' clean-up hook fails: they are replaced all the same
+    if factory and quota and index % 8 == 2:
+        case["frac_quota"] = rng.choice([0.5, 0.25])       # max_chunks_per_worker=2.5: the worker is replaced all the same
     if index % 8 == 3:
         case["create_all_first"] = True                    # all result generators built first, consumed one after the other
     if factory and quota and index % 8 == 1:
-        case["verbose"], case["broken_stderr"] = True, True   # information messages wanted, stderr is a pipe nobody reads
+        case["verbose"] = True      # information messages wanted (a stderr that cannot be written to is an environment fault the
+        # property does not quantify over: the library's own message about a join that timed out would kill the replace thread there)
     return case
 
 
